@@ -24,6 +24,8 @@ def init():
     gen_tzx.init()
 
 def gen(rng, tier, index):
+    if index % 12 == 5:
+        return gen_tzx.gen_landing(rng, tier, index)
     if index % 3 == 2:
         return gen_tzx.gen_custom(rng, tier, index)
     if index % 3 == 1:
@@ -117,7 +119,40 @@ def _diff(a, b, keys=None):
 def _cfgstr(v):
     return ' '.join('%s=%s' % (k, v[k]) for k in ('accelerator', 'accelerate-dec-a', 'pause', 'python', 'fast-load', 'cmio') if k in v) + (' order=%s' % v['order'] if 'order' in v else '')
 
+def _landing(scn, res, wd):
+    """Choose the lead-in pulse length so that its closing edge lands on an observed sampling / fast-forward instant."""
+    ld = scn['landing']
+    b = scn['blocks'][0]
+    b['lead'] = {'n1': scn['n1'], 'pulse': gen_tzx.PROBE_PULSE}
+    tape, start, machine, ranges, skip = gen_tzx.build(scn, wd)
+    cfg = dict(scn['base'])
+    cfg.update({'accelerator': scn['variants'][0]['accelerator'], 'accelerate-dec-a': 0, 'pause': 1, 'python': 1, 'fast-load': 0, 'cmio': 0, 'machine': machine, 'timeout': 120})
+    tapeload.set_accelerator_order(0)
+    e0, log = tapeload.probe_reads(tape, start, cfg, os.path.join(wd, 'probe.szx'), scn.get('extra_args', []), gen_tzx.PROBE_PULSE)
+    bump(res, 'landing_probes')
+    if e0 is None:
+        return None
+    lo, hi = e0 + 600, e0 + gen_tzx.PROBE_PULSE - 600
+    ffwd = sorted(set(x for (t0, x) in log if x != t0 and lo < x < hi))
+    entry = sorted(set(t0 for (t0, x) in log if lo < t0 < hi))
+    pool = {'ffwd': ffwd or entry, 'entry': entry, 'any': sorted(set(ffwd + entry))}[ld['kind']]
+    if not pool:
+        return None
+    t = pool[min(len(pool) - 1, int(ld['pick'] * len(pool)))]
+    ld['pulse'] = max(1, min(65535, t - e0 + ld['delta']))
+    ld['landed_on'] = 'ffwd-exit' if t in ffwd else 'sample'
+    return ld['pulse']
+
 def _run(scn, res, wd):
+    try:
+        if scn.get('landing'):
+            if scn['landing'].get('pulse') is None and _landing(scn, res, wd) is None:
+                res['discard'] = 'probe found no sampling instant inside the lead-in pulse'
+                return res
+            scn['blocks'][0]['lead'] = {'n1': scn['n1'], 'pulse': scn['landing']['pulse']}
+            bump(res, 'fault:EDGE_ON_SAMPLING_INSTANT(%s,%+d)' % (scn['landing'].get('landed_on', '?'), scn['landing']['delta']))
+    except tapeload.ToolError as e:
+        return fail(res, 'C13/tool-error', 'probe: ' + str(e))
     try:
         if scn['source'] == 'bin2tap':
             tape, exp = p12.build_tape(scn, wd)
@@ -247,7 +282,7 @@ def shrink_candidates(scn):
 
 def describe():
     return {
-        'rule': 'one evaluation = one tape (bin2tap tape, or a headerless TZX/PZX turbo tape with a custom loader whose sampling loop is the code signature of a named accelerator) loaded under 6-12 configurations; the literal execution (C engine, no acceleration, pause on, no fast load) is the reference. Distinct = distinct (tape source/loader, machine, configuration) triples.',
+        'rule': 'one evaluation = one tape (bin2tap tape, or a headerless TZX/PZX turbo tape with a custom loader whose sampling loop is the code signature of a named accelerator) loaded under 6-12 configurations; the literal execution (C engine, no acceleration, pause on, no fast load) is the reference. Landing scenarios: a long pulse inside the pilot tone makes the edge searches of the loader time out; a probe execution (Python engine, LoadTracer._read_port seam) records the instants at which the loader samples EAR and at which fast-forwards end, and the pulse length is then chosen so that its closing edge lands exactly on (or 1 T beside) such an instant. Distinct = distinct (tape source/loader, machine, configuration) triples.',
         'assumptions': ['final state is captured at simulator level by wrapping tap2sna.get_state (the snapshot file omits T); MEMPTR is not compared',
                         'the iteration order of the accelerator set is a seeded schedule choice (Accelerator.__hash__ patched by the harness)',
                         'scenarios whose reference execution does not reach the start address are discarded and counted'],
